@@ -87,10 +87,12 @@ Lemma ids_unique_fold_put acc : forall st, ids_unique st -> ids_unique (fold_lef
 Proof. induction acc as [|x tl IH]; simpl; intros st H; [assumption|]. apply IH, ids_unique_put; assumption. Qed.
 Lemma ids_unique_fold_edge acc : forall st, ids_unique st -> ids_unique (fold_left put_edge acc st).
 Proof. induction acc as [|x tl IH]; simpl; intros st H; [assumption|]. apply IH. exact H. Qed.
-Lemma ids_unique_fold_ndel acc : forall st, ids_unique st -> ids_unique (fold_left apply_ndel acc st).
+Lemma ids_unique_apply_ndel st d : ids_unique st -> ids_unique (apply_ndel st d).
+Proof. unfold ids_unique, apply_ndel. simpl. apply NoDup_map_filter. Qed.
+Lemma ids_unique_fold_ndel rooms acc : forall st, ids_unique st -> ids_unique (fold_left (one_ndel rooms) acc st).
 Proof.
   induction acc as [|x tl IH]; simpl; intros st H; [assumption|]. apply IH.
-  unfold ids_unique, apply_ndel. simpl. apply NoDup_map_filter; assumption.
+  unfold one_ndel. destruct (ndel_ok rooms st x); [apply ids_unique_apply_ndel|]; assumption.
 Qed.
 Lemma ids_unique_fold_edel acc : forall st, ids_unique st -> ids_unique (fold_left apply_edel acc st).
 Proof. induction acc as [|x tl IH]; simpl; intros st H; [assumption|]. apply IH. exact H. Qed.
@@ -181,18 +183,6 @@ Proof.
 Qed.
 
 (* node tombstones *)
-Lemma fold_ndel_frame acc : forall st,
-  s_edges (fold_left apply_ndel acc st) = s_edges st /\ s_edels (fold_left apply_ndel acc st) = s_edels st.
-Proof. induction acc as [|x tl IH]; simpl; intros st; [auto|]. destruct (IH (apply_ndel st x)) as [A B]. rewrite A, B. auto. Qed.
-
-Lemma fold_ndel_in acc : forall st d,
-  In d (s_ndels (fold_left apply_ndel acc st)) -> In d (s_ndels st) \/ In d acc.
-Proof.
-  induction acc as [|a tl IH]; simpl; intros st d H; [auto|].
-  destruct (IH _ _ H) as [H1|H1]; [|auto]. simpl in H1. destruct H1 as [->|H1]; [auto|].
-  apply filter_In in H1. tauto.
-Qed.
-
 Lemma same_ndel_pk_refl a : same_ndel_pk a a = true.
 Proof. unfold same_ndel_pk, oent_eqb. rewrite !N.eqb_refl, Z.eqb_refl. destruct (nd_ent a); simpl; [apply N.eqb_refl|reflexivity]. Qed.
 Lemma oent_eqb_eq a b : oent_eqb a b = true -> a = b.
@@ -209,40 +199,6 @@ Lemma same_ndel_pk_trans a b c : same_ndel_pk a b = true -> same_ndel_pk b c = t
 Proof.
   intros H1 H2. destruct (same_ndel_pk_eq _ _ H1) as [A [B [C D]]]. destruct (same_ndel_pk_eq _ _ H2) as [A' [B' [C' D']]].
   unfold same_ndel_pk. rewrite A, B, C, D, A', B', C', D'. apply same_ndel_pk_refl.
-Qed.
-
-Lemma fold_ndel_keep acc : forall st y,
-  In y (s_ndels st) ->
-  In y (s_ndels (fold_left apply_ndel acc st)) \/
-  exists x, In x (s_ndels (fold_left apply_ndel acc st)) /\ same_ndel_pk x y = true /\ In x acc.
-Proof.
-  induction acc as [|a tl IH]; simpl; intros st y Hy; [auto|].
-  destruct (same_ndel_pk y a) eqn:He.
-  - destruct (IH (apply_ndel st a) a) as [H|[x [Hx [Hi Ha]]]]; [simpl; auto| |].
-    + right. exists a. split; [assumption|]. split; [apply same_ndel_pk_sym; assumption|auto].
-    + right. exists x. repeat split; [assumption| |auto].
-      apply same_ndel_pk_trans with a; [assumption|]. apply same_ndel_pk_sym. assumption.
-  - destruct (IH (apply_ndel st a) y) as [H|[x [Hx [Hi Ha]]]].
-    + simpl. right. apply filter_In. split; [assumption|]. rewrite He. reflexivity.
-    + auto.
-    + right. exists x. auto.
-Qed.
-
-Lemma fold_ndel_nodes_sub acc : forall st x, In x (s_nodes (fold_left apply_ndel acc st)) -> In x (s_nodes st).
-Proof.
-  induction acc as [|a tl IH]; simpl; intros st x H; [assumption|].
-  apply IH in H. simpl in H. apply filter_In in H. tauto.
-Qed.
-Lemma fold_ndel_nodes_keep acc : forall st y,
-  In y (s_nodes st) -> In y (s_nodes (fold_left apply_ndel acc st)) \/ exists d, In d acc /\ node_hit d y = true.
-Proof.
-  induction acc as [|a tl IH]; simpl; intros st y Hy; [auto|].
-  destruct (node_hit a y) eqn:He.
-  - right. exists a. auto.
-  - destruct (IH (apply_ndel st a) y) as [H|[d [Hd Hh]]].
-    + simpl. apply filter_In. split; [assumption|]. rewrite He. reflexivity.
-    + auto.
-    + right. exists d. auto.
 Qed.
 
 (* edge tombstones *)
@@ -309,12 +265,6 @@ Proof.
     + right. exists d. auto.
 Qed.
 
-Lemma dedup_last_in l d : In d (dedup_last l) -> In d l.
-Proof.
-  induction l as [|a tl IH]; simpl; [tauto|]. destruct (existsb _ tl); simpl; intros H; [auto|].
-  destruct H; auto.
-Qed.
-
 (* ------------------------------------------------------------------ accepted => entitled *)
 Lemma validate_node_true defs x orm oau R en :
   n_room x = Some R -> n_ent x = Some en ->
@@ -345,7 +295,7 @@ Proof. intros H1 H2 H. apply in_app_or in H. tauto. Qed.
 
 Lemma accept_node_entitled defs dm R st x v :
   accept_node (build_rooms defs) dm R st x = true -> n_sig_ok x = true ->
-  In v (node_entitled defs dm R st x) -> v = 3 \/ v = 5.
+  In v (node_entitled defs dm R st x) -> v = 3.
 Proof.
   unfold accept_node, prefilter, node_entitled. intros Hacc Hsig.
   apply andb_prop in Hacc. destruct Hacc as [Hpre Hval]. apply andb_prop in Hpre. destruct Hpre as [Hroom Hmodel].
@@ -360,18 +310,16 @@ Proof.
                  | Some R0 => N.eqb R0 R || grantedR defs R0 (n_author x) en (n_mdate x) (needed (N.eqb (n_author o) (n_author x)))
                  | None => true end = true).
     { destruct (n_room o) as [R0|]; [|reflexivity]. destruct Hold as [H|H]; rewrite H; [reflexivity|apply orb_true_r]. }
-    rewrite Ho. simpl. intros Hin. apply in_app_or in Hin. destruct Hin as [Hin|Hin].
-    + destruct (spec_conform fs (n_json x)); simpl in Hin; [contradiction|]. destruct Hin as [<-|[]]. auto.
-    + destruct (n_ent o) as [eo|]; [|contradiction]. destruct (_ || _); simpl in Hin; [contradiction|]. destruct Hin as [<-|[]]. auto.
+    rewrite Ho. simpl. intros Hin.
+    destruct (n_ent o) as [eo|]; [|contradiction]. destruct (_ || _); simpl in Hin; [contradiction|]. destruct Hin as [<-|[]]. reflexivity.
   - destruct (validate_node_true defs x None None R en Er Ee Hval) as [Hbig [Hg _]].
-    rewrite Hbig. simpl required_right in Hg. rewrite Hg. simpl. intros Hin. rewrite app_nil_r in Hin.
-    destruct (spec_conform fs (n_json x)); simpl in Hin; [contradiction|]. destruct Hin as [<-|[]]. auto.
+    rewrite Hbig. simpl required_right in Hg. rewrite Hg. simpl. contradiction.
 Qed.
 
 Theorem step_nodes_viol defs dm R st batch v :
   let r := step_nodes (build_rooms defs) dm R st batch in
   In v (viol_step defs dm (SNodes R batch) (match snd r with 0 :: _ => true | _ => false end) st (fst r)) ->
-  v = 3 \/ v = 5.
+  v = 3.
 Proof.
   unfold step_nodes. destruct (forallb n_sig_ok (filter (requested st) batch)) eqn:Hsig; cbn [fst snd viol_step negb].
   2:{ unfold unchanged. intros H. repeat (apply in_app_or in H; destruct H as [H|H]; [exfalso; eapply frame_refl; eauto|]).
@@ -404,13 +352,14 @@ Qed.
 
 (* ---- references ---- *)
 Lemma edge_ok_entitled defs R r st st' x v :
-  find_room (build_rooms defs) R = Some r -> edge_ok r x = true -> e_sig_ok x = true ->
-  In v (edge_entitled defs R st st' x) -> v = 1 \/ v = 4.
+  find_room (build_rooms defs) R = Some r -> s_nodes st' = s_nodes st ->
+  edge_ok r R st x = true -> e_sig_ok x = true ->
+  In v (edge_entitled defs R st st' x) -> v = 4.
 Proof.
-  unfold edge_ok, edge_entitled. intros Hr Hok Hsig. destruct (e_ent x) as [en|]; [|discriminate].
-  rewrite Hsig, (can_grantedR _ _ _ _ _ _ _ Hr Hok). simpl. intros Hin. apply in_app_or in Hin. destruct Hin as [Hin|Hin].
-  - destruct (src_in_room _ _ _ _); simpl in Hin; [contradiction|]. destruct Hin as [<-|[]]. auto.
-  - destruct (find _ _) as [o|]; [|contradiction]. destruct (_ || _); simpl in Hin; [contradiction|]. destruct Hin as [<-|[]]. auto.
+  unfold edge_ok, edge_right, edge_entitled. intros Hr Hn Hok Hsig. destruct (e_ent x) as [en|]; [|discriminate].
+  apply andb_prop in Hok. destruct Hok as [Hsrc Hcan].
+  rewrite Hsig, (can_grantedR _ _ _ _ _ _ _ Hr Hcan), Hn, Hsrc. simpl. intros Hin.
+  destruct (find _ _) as [o|]; [|contradiction]. destruct (_ || _); simpl in Hin; [contradiction|]. destruct Hin as [<-|[]]. reflexivity.
 Qed.
 
 Ltac kill_frames H :=
@@ -424,13 +373,13 @@ Qed.
 Theorem step_edges_viol defs dm R st batch v :
   let r := step_edges (build_rooms defs) R st batch in
   In v (viol_step defs dm (SEdges R batch) (match snd r with 0 :: _ => true | _ => false end) st (fst r)) ->
-  v = 1 \/ v = 4.
+  v = 4.
 Proof.
   unfold step_edges. destruct (forallb e_sig_ok batch) eqn:Hsig; cbn [fst snd viol_step negb].
   2:{ intros H. exfalso. eapply unchanged_refl; eauto. }
   destruct (find_room (build_rooms defs) R) as [r|] eqn:Hr; cbn [fst snd viol_step negb].
   2:{ intros H. exfalso. eapply unchanged_refl; eauto. }
-  set (acc := filter (edge_ok r) batch).
+  set (acc := filter (edge_ok r R st) batch).
   unfold viol_edges. destruct (fold_put_edge_frame acc st) as [Fn [Fd Fe]]. rewrite Fn, Fd, Fe.
   intros H. kill_frames H.
   apply in_app_or in H. destruct H as [H|H].
@@ -452,71 +401,180 @@ Proof.
 Qed.
 
 (* ---- node tombstones ---- *)
-Lemma ndel_ok_entitled defs st d v :
-  ids_unique st -> ndel_ok (build_rooms defs) st d = true -> nd_sig_ok d = true ->
-  In v (ndel_entitled defs st d) -> v = 2.
+Lemma unique_same_id st y o : ids_unique st -> In y (s_nodes st) -> In o (s_nodes st) -> n_id o = n_id y -> o = y.
 Proof.
-  unfold ndel_ok, ndel_entitled. intros Hu Hok Hsig. destruct (nd_ent d) as [en|]; [|discriminate].
-  destruct (find_room (build_rooms defs) (nd_room d)) as [r|] eqn:Hr; [|discriminate].
-  pose proof (can_grantedR _ _ _ _ _ _ _ Hr Hok) as Hg. clear Hok. rewrite Hsig.
+  intros Hu Hy Ho Hid. pose proof (find_unique n_id _ _ Hu Hy) as F1. pose proof (find_unique n_id _ _ Hu Ho) as F2.
+  rewrite Hid in F2. congruence.
+Qed.
+Lemma node_hit_id d y : node_hit d y = true -> n_id y = nd_id d.
+Proof. unfold node_hit. intros H. apply andb_prop in H. destruct H as [H _]. apply andb_prop in H. destruct H as [_ H]. apply N.eqb_eq in H. exact H. Qed.
+Lemma lookup_in st y : ids_unique st -> In y (s_nodes st) -> lookup_node st (n_id y) = Some y.
+Proof. intros Hu Hy. unfold lookup_node. apply find_unique; assumption. Qed.
+
+(* an entry accepted against the current rows is entitled in the oracle's sense, relative to the
+   rows held before the call and the entries of the answer processed so far *)
+Lemma ndel_ok_entitled defs st cur p d :
+  ids_unique cur ->
+  (forall y, In y (s_nodes st) -> (forall e, In e p -> node_hit e y = false) -> In y (s_nodes cur)) ->
+  ndel_ok (build_rooms defs) cur d = true -> nd_sig_ok d = true ->
+  ndel_entitled defs st p d = true.
+Proof.
+  intros Hu Hkeep Hok Hsig. unfold ndel_ok in Hok. unfold ndel_entitled. destruct (nd_ent d) as [en|] eqn:Ee; [|discriminate].
+  destruct (find_room (build_rooms defs) (nd_room d)) as [r|] eqn:Hr; [|discriminate]. rewrite Hsig. cbn [andb].
+  assert (Hself : grantedR defs (nd_room d) (nd_author d) en (nd_date d) MutateSelf = true).
+  { destruct (lookup_node cur (nd_id d)) as [ex|].
+    - apply andb_prop in Hok. destruct Hok as [_ Hc]. eapply grantedR_needed. eapply can_grantedR; eauto.
+    - eapply can_grantedR; eauto. }
+  destruct (find (node_hit d) (s_nodes st)) as [o|] eqn:Hf; [|rewrite Hself; reflexivity].
+  destruct (existsb (fun e => node_hit e o) p) eqn:Hex; [rewrite Hself; reflexivity|].
+  apply find_some in Hf. destruct Hf as [Hin Hh].
+  assert (Hcur : In o (s_nodes cur)).
+  { apply Hkeep; [assumption|]. intros e He. destruct (node_hit e o) eqn:E; [|reflexivity].
+    assert (existsb (fun e0 => node_hit e0 o) p = true) by (apply existsb_exists; exists e; auto). congruence. }
+  rewrite <- (node_hit_id _ _ Hh), (lookup_in _ _ Hu Hcur) in Hok.
+  apply andb_prop in Hok. destruct Hok as [He Hc]. rewrite (can_grantedR _ _ _ _ _ _ _ Hr Hc). rewrite He. reflexivity.
+Qed.
+
+(* an accepted entry that removes a row is entitled to remove THAT row (no earlier entry considered) *)
+Lemma ndel_ok_entitled_strict defs st cur d y :
+  ids_unique st -> ids_unique cur -> (forall z, In z (s_nodes cur) -> In z (s_nodes st)) ->
+  In y (s_nodes cur) -> node_hit d y = true ->
+  ndel_ok (build_rooms defs) cur d = true -> nd_sig_ok d = true ->
+  ndel_entitled defs st [] d = true.
+Proof.
+  intros Hust Hu Hsub Hy Hh Hok Hsig. unfold ndel_ok in Hok. unfold ndel_entitled.
+  destruct (nd_ent d) as [en|] eqn:Ee; [|discriminate].
+  destruct (find_room (build_rooms defs) (nd_room d)) as [r|] eqn:Hr; [|discriminate]. rewrite Hsig. cbn [andb existsb].
   destruct (find (node_hit d) (s_nodes st)) as [o|] eqn:Hf.
-  - apply find_some in Hf. destruct Hf as [Hin Hh]. unfold node_hit in Hh. apply andb_prop in Hh. destruct Hh as [_ Hid].
-    apply N.eqb_eq in Hid. unfold lookup_node in Hg. rewrite <- Hid in Hg.
-    rewrite (find_unique n_id _ _ Hu Hin) in Hg. rewrite Hg. simpl.
-    destruct (n_ent o) as [eo|]; [|contradiction]. destruct (_ || _); simpl; [contradiction|]. intros [<-|[]]. reflexivity.
-  - assert (Hs : grantedR defs (nd_room d) (nd_author d) en (nd_date d) MutateSelf = true).
-    { destruct (lookup_node st (nd_id d)); [eapply grantedR_needed; eauto|assumption]. }
-    rewrite Hs. simpl. contradiction.
+  - apply find_some in Hf. destruct Hf as [Hin Hho].
+    assert (o = y). { apply (unique_same_id st y o Hust (Hsub _ Hy) Hin). rewrite (node_hit_id _ _ Hho), (node_hit_id _ _ Hh). reflexivity. }
+    subst o. rewrite <- (node_hit_id _ _ Hh), (lookup_in _ _ Hu Hy) in Hok.
+    apply andb_prop in Hok. destruct Hok as [He Hc]. rewrite (can_grantedR _ _ _ _ _ _ _ Hr Hc). rewrite He. reflexivity.
+  - exfalso. pose proof (find_none _ _ Hf y (Hsub _ Hy)) as Hn. congruence.
+Qed.
+
+Lemma entitled_at_mid defs st x : forall p1 q p2,
+  ndel_entitled defs st (q ++ p1) x = true -> entitled_at defs st q (p1 ++ x :: p2) x = true.
+Proof.
+  induction p1 as [|y tl IH]; intros q p2 H; simpl.
+  - rewrite app_nil_r in H. rewrite N.eqb_refl, H. reflexivity.
+  - rewrite IH; [apply orb_true_r|]. rewrite <- app_assoc. exact H.
+Qed.
+
+(* the state after the entries p of the answer, started from st *)
+Record ndel_inv defs (st : store) (p : list rndel) (cur : store) : Prop := {
+  ni_frame : s_edges cur = s_edges st /\ s_edels cur = s_edels st;
+  ni_unique : ids_unique cur;
+  ni_sub : forall y, In y (s_nodes cur) -> In y (s_nodes st);
+  ni_keep : forall y, In y (s_nodes st) -> (forall e, In e p -> node_hit e y = false) -> In y (s_nodes cur);
+  ni_gone : forall y, In y (s_nodes st) ->
+            In y (s_nodes cur) \/ exists d, In d p /\ node_hit d y = true /\ ndel_entitled defs st [] d = true;
+  ni_new : forall x, In x (s_ndels cur) ->
+           In x (s_ndels st) \/ exists p1 p2, p = p1 ++ x :: p2 /\ ndel_entitled defs st p1 x = true;
+  ni_dkeep : forall y, In y (s_ndels st) ->
+             In y (s_ndels cur) \/ exists x, In x (s_ndels cur) /\ same_ndel_pk x y = true /\ In x p
+}.
+
+Lemma ndel_inv_init defs st : ids_unique st -> ndel_inv defs st [] st.
+Proof. intros Hu. constructor; auto. Qed.
+
+Lemma ndel_inv_step defs st p cur d :
+  ids_unique st -> nd_sig_ok d = true ->
+  ndel_inv defs st p cur -> ndel_inv defs st (p ++ [d]) (one_ndel (build_rooms defs) cur d).
+Proof.
+  intros Hust Hsig [[Fe Fd] Hu Hsub Hkeep Hgone Hnew Hdk]. unfold one_ndel.
+  destruct (ndel_ok (build_rooms defs) cur d) eqn:Hok.
+  - (* accepted *)
+    assert (HA : ndel_entitled defs st p d = true) by (eapply ndel_ok_entitled; eauto).
+    constructor.
+    + simpl. auto.
+    + apply ids_unique_apply_ndel; assumption.
+    + intros y Hy. simpl in Hy. apply filter_In in Hy. apply Hsub. tauto.
+    + intros y Hy Hno. simpl. apply filter_In. split.
+      * apply Hkeep; [assumption|]. intros e He. apply Hno. apply in_or_app. auto.
+      * rewrite (Hno d); [reflexivity|]. apply in_or_app. right. left. reflexivity.
+    + intros y Hy. destruct (Hgone y Hy) as [Hc|[e [He [Hh Hen]]]].
+      * destruct (node_hit d y) eqn:Hh.
+        -- right. exists d. split; [apply in_or_app; right; left; reflexivity|]. split; [assumption|].
+           eapply ndel_ok_entitled_strict; eauto.
+        -- left. simpl. apply filter_In. split; [assumption|]. rewrite Hh. reflexivity.
+      * right. exists e. split; [apply in_or_app; auto|auto].
+    + intros x Hx. simpl in Hx. destruct Hx as [<-|Hx].
+      * right. exists p, []. auto.
+      * apply filter_In in Hx. destruct Hx as [Hx _]. destruct (Hnew x Hx) as [H|[p1 [p2 [-> Hen]]]]; [auto|].
+        right. exists p1, (p2 ++ [d]). split; [rewrite <- app_assoc; reflexivity|assumption].
+    + intros y Hy. destruct (Hdk y Hy) as [Hc|[x [Hx [Hpk Hp]]]].
+      * destruct (same_ndel_pk y d) eqn:E.
+        -- right. exists d. split; [simpl; auto|]. split; [apply same_ndel_pk_sym; assumption|apply in_or_app; right; left; reflexivity].
+        -- left. simpl. right. apply filter_In. split; [assumption|]. rewrite E. reflexivity.
+      * destruct (same_ndel_pk x d) eqn:E.
+        -- right. exists d. split; [simpl; auto|]. split; [|apply in_or_app; right; left; reflexivity].
+           apply same_ndel_pk_trans with x; [apply same_ndel_pk_sym; assumption|assumption].
+        -- right. exists x. split; [simpl; right; apply filter_In; split; [assumption|rewrite E; reflexivity]|].
+           split; [assumption|apply in_or_app; auto].
+  - (* refused: nothing changes *)
+    constructor; auto.
+    + intros y Hy Hno. apply Hkeep; [assumption|]. intros e He. apply Hno. apply in_or_app. auto.
+    + intros y Hy. destruct (Hgone y Hy) as [Hc|[e [He [Hh Hen]]]]; [auto|]. right. exists e. split; [apply in_or_app; auto|auto].
+    + intros x Hx. destruct (Hnew x Hx) as [H|[p1 [p2 [-> Hen]]]]; [auto|].
+      right. exists p1, (p2 ++ [d]). split; [rewrite <- app_assoc; reflexivity|assumption].
+    + intros y Hy. destruct (Hdk y Hy) as [Hc|[x [Hx [Hpk Hp]]]]; [auto|]. right. exists x. repeat split; auto. apply in_or_app; auto.
+Qed.
+
+Lemma ndel_inv_fold defs st : ids_unique st -> forall rest p cur,
+  forallb nd_sig_ok rest = true -> ndel_inv defs st p cur ->
+  ndel_inv defs st (p ++ rest) (fold_left (one_ndel (build_rooms defs)) rest cur).
+Proof.
+  intros Hust. induction rest as [|d tl IH]; intros p cur Hsig Hinv; simpl.
+  - rewrite app_nil_r. exact Hinv.
+  - simpl in Hsig. apply andb_prop in Hsig. destruct Hsig as [Hd Htl].
+    replace (p ++ d :: tl) with ((p ++ [d]) ++ tl) by (rewrite <- app_assoc; reflexivity).
+    apply IH; [assumption|]. apply ndel_inv_step; assumption.
+Qed.
+
+(* the repaired path: no violation at all (classes 2 of the first round and the batching defect are gone) *)
+Theorem step_ndels_viol defs dm st batch v :
+  ids_unique st ->
+  let r := step_ndels (build_rooms defs) st batch in
+  ~ In v (viol_step defs dm (SNDels batch) (match snd r with 0 :: _ => true | _ => false end) st (fst r)).
+Proof.
+  intros Hu. unfold step_ndels. destruct (forallb nd_sig_ok batch) eqn:Hsig; cbn [fst snd viol_step negb].
+  2:{ apply unchanged_refl. }
+  pose proof (ndel_inv_fold defs st Hu batch [] st Hsig (ndel_inv_init defs st Hu)) as Hinv. simpl in Hinv.
+  destruct Hinv as [[Fe Fd] Hu' Hsub Hkeep Hgone Hnew Hdk].
+  set (st' := fold_left (one_ndel (build_rooms defs)) batch st) in *.
+  unfold viol_ndels. rewrite Fe, Fd. intros H. kill_frames H.
+  apply in_app_or in H. destruct H as [H|H].
+  { apply in_flat_map in H. destruct H as [d [Hd Hv]].
+    destruct (has_tag nd_tag (s_ndels st) (nd_tag d)) eqn:Ht; [contradiction|].
+    destruct (Hnew d Hd) as [Hin|[p1 [p2 [Hb Hen]]]].
+    - rewrite (has_tag_in nd_tag _ _ Hin) in Ht. discriminate.
+    - rewrite Hb in Hv. rewrite (entitled_at_mid defs st d p1 [] p2 Hen) in Hv. contradiction. }
+  apply in_app_or in H. destruct H as [H|H].
+  { apply in_flat_map in H. destruct H as [y [Hy Hv]].
+    destruct (Hdk y Hy) as [Hk|[x [Hx [Hpk Ha]]]].
+    - rewrite (has_tag_in nd_tag _ _ Hk) in Hv. contradiction.
+    - destruct (has_tag nd_tag _ (nd_tag y)); [contradiction|].
+      assert (He : existsb (fun d => same_ndel_pk d y && has_tag nd_tag batch (nd_tag d)) (s_ndels st') = true).
+      { apply existsb_exists. exists x. split; [assumption|]. rewrite Hpk. simpl. apply has_tag_in. assumption. }
+      rewrite He in Hv. contradiction. }
+  apply in_app_or in H. destruct H as [H|H].
+  { apply in_flat_map in H. destruct H as [y [Hy Hv]].
+    destruct (Hgone y Hy) as [Hk|[d [Hd [Hh Hen]]]].
+    - rewrite (has_tag_in n_tag _ _ Hk) in Hv. contradiction.
+    - destruct (has_tag n_tag _ (n_tag y)); [contradiction|].
+      assert (He : existsb (fun d0 => node_hit d0 y && ndel_entitled defs st [] d0) batch = true).
+      { apply existsb_exists. exists d. split; [assumption|]. rewrite Hh, Hen. reflexivity. }
+      rewrite He in Hv. contradiction. }
+  { assert (Hf : forallb (fun x => has_tag n_tag (s_nodes st) (n_tag x)) (s_nodes st') = true).
+    { apply forallb_forall. intros x Hx. apply has_tag_in. apply Hsub; assumption. }
+    rewrite Hf in H. simpl in H. contradiction. }
 Qed.
 
 Lemma no_zero_of {l : list Z} {k : Z} : k <> 0 -> (forall v, In v l -> v = k) -> existsb (Z.eqb 0) l = false.
 Proof.
   intros Hk H. destruct (existsb (Z.eqb 0) l) eqn:E; [|reflexivity]. apply existsb_exists in E. destruct E as [z [Hz He]].
   apply Z.eqb_eq in He. subst z. specialize (H _ Hz). congruence.
-Qed.
-
-Theorem step_ndels_viol defs dm st batch v :
-  ids_unique st ->
-  let r := step_ndels (build_rooms defs) st batch in
-  In v (viol_step defs dm (SNDels batch) (match snd r with 0 :: _ => true | _ => false end) st (fst r)) ->
-  v = 2.
-Proof.
-  intros Hu. unfold step_ndels. destruct (forallb nd_sig_ok batch) eqn:Hsig; cbn [fst snd viol_step negb].
-  2:{ intros H. exfalso. eapply unchanged_refl; eauto. }
-  set (acc := filter (ndel_ok (build_rooms defs) st) (dedup_last batch)).
-  assert (Hacc : forall d, In d acc -> In d batch /\ ndel_ok (build_rooms defs) st d = true /\ nd_sig_ok d = true).
-  { intros d Hd. unfold acc in Hd. apply filter_In in Hd. destruct Hd as [Hd Hok]. apply dedup_last_in in Hd.
-    repeat split; try assumption. rewrite forallb_forall in Hsig. apply Hsig; assumption. }
-  unfold viol_ndels. destruct (fold_ndel_frame acc st) as [Fe Fd]. rewrite Fe, Fd.
-  intros H. kill_frames H.
-  apply in_app_or in H. destruct H as [H|H].
-  { apply in_flat_map in H. destruct H as [d [Hd Hv]].
-    destruct (has_tag nd_tag (s_ndels st) (nd_tag d)) eqn:Ht; [contradiction|].
-    destruct (fold_ndel_in _ _ _ Hd) as [Hin|Hin].
-    - rewrite (has_tag_in nd_tag _ _ Hin) in Ht. discriminate.
-    - destruct (Hacc _ Hin) as [Hb [Hok Hs]]. rewrite (has_tag_in nd_tag _ _ Hb) in Hv. simpl in Hv.
-      eapply ndel_ok_entitled; eauto. }
-  apply in_app_or in H. destruct H as [H|H].
-  { apply in_flat_map in H. destruct H as [y [Hy Hv]]. exfalso.
-    destruct (fold_ndel_keep acc st y Hy) as [Hk|[x [Hx [Hpk Ha]]]].
-    - rewrite (has_tag_in nd_tag _ _ Hk) in Hv. contradiction.
-    - destruct (has_tag nd_tag _ (nd_tag y)); [contradiction|].
-      assert (He : existsb (fun d => same_ndel_pk d y && has_tag nd_tag batch (nd_tag d)) (s_ndels (fold_left apply_ndel acc st)) = true).
-      { apply existsb_exists. exists x. split; [assumption|]. rewrite Hpk. simpl. apply has_tag_in. apply Hacc; assumption. }
-      rewrite He in Hv. contradiction. }
-  apply in_app_or in H. destruct H as [H|H].
-  { apply in_flat_map in H. destruct H as [y [Hy Hv]]. exfalso.
-    destruct (fold_ndel_nodes_keep acc st y Hy) as [Hk|[d [Hd Hh]]].
-    - rewrite (has_tag_in n_tag _ _ Hk) in Hv. contradiction.
-    - destruct (has_tag n_tag _ (n_tag y)); [contradiction|].
-      destruct (Hacc _ Hd) as [Hb [Hok Hs]].
-      assert (He : existsb (fun d0 => node_hit d0 y && negb (existsb (Z.eqb 0) (ndel_entitled defs st d0))) batch = true).
-      { apply existsb_exists. exists d. split; [assumption|]. rewrite Hh. simpl.
-        rewrite (@no_zero_of _ 2); [reflexivity|discriminate|]. intros w Hw. eapply ndel_ok_entitled; eauto. }
-      rewrite He in Hv. contradiction. }
-  { exfalso. assert (Hf : forallb (fun x => has_tag n_tag (s_nodes st) (n_tag x)) (s_nodes (fold_left apply_ndel acc st)) = true).
-    { apply forallb_forall. intros x Hx. apply has_tag_in. eapply fold_ndel_nodes_sub; eauto. }
-    rewrite Hf in H. simpl in H. contradiction. }
 Qed.
 
 (* ---- reference tombstones ---- *)
@@ -575,7 +633,7 @@ Proof.
 Qed.
 
 (* ------------------------------------------------------------------ any sequence of calls *)
-Definition known_kind (v : Z) : Prop := v = 1 \/ v = 2 \/ v = 3 \/ v = 4 \/ v = 5.
+Definition known_kind (v : Z) : Prop := v = 1 \/ v = 3 \/ v = 4.
 Definition status_ok (a : list Z) : bool := match a with 0 :: _ => true | _ => false end.
 Definition observed (rs : list (store * list Z)) : list (bool * store) :=
   map (fun r => (status_ok (snd r), fst r)) rs.
@@ -586,9 +644,9 @@ Lemma do_step_viol defs dm st s v :
   In v (viol_step defs dm s (status_ok (snd r)) st (fst r)) -> known_kind v.
 Proof.
   intros Hu. unfold known_kind, status_ok. destruct s as [R b|R b|b|b]; cbn [do_step]; intros H.
-  - destruct (step_nodes_viol defs dm R st b v H); auto.
-  - destruct (step_edges_viol defs dm R st b v H); auto.
-  - pose proof (step_ndels_viol defs dm st b v Hu H). auto.
+  - pose proof (step_nodes_viol defs dm R st b v H). auto.
+  - pose proof (step_edges_viol defs dm R st b v H). auto.
+  - exfalso. eapply (step_ndels_viol defs dm st b v Hu); eauto.
   - pose proof (step_edels_viol defs dm st b v H). auto.
 Qed.
 
@@ -613,15 +671,15 @@ Proof.
   - unfold step_edels. destruct (forallb _ _); [discriminate|reflexivity].
 Qed.
 
-(* the verdict on one row depends on that row, the room definitions, the data model and the stored
-   row of the same id only: not on the rest of the batch, not on other stored rows *)
+(* the verdict on one row depends on that row, the room definitions, the data model, the stored
+   row of the same id and the stored deletion records of that id only: not on the rest of the
+   batch, not on other stored rows *)
 Theorem node_verdict_local rooms dm R st st' x :
   lookup_node st (n_id x) = lookup_node st' (n_id x) ->
+  tombstoned st x = tombstoned st' x ->
   requested st x = requested st' x /\ accept_node rooms dm R st x = accept_node rooms dm R st' x.
-Proof. unfold requested, accept_node. intros ->. split; reflexivity. Qed.
+Proof. unfold requested, accept_node. intros -> ->. split; reflexivity. Qed.
 
-Theorem edge_verdict_local r x : forall b1 b2 : list redge, edge_ok r x = edge_ok r x.
-Proof. reflexivity. Qed.
 
 (* a rejected row leaves no trace: rows of a node batch that are requested but refused are not
    among the stored rows afterwards unless they were stored before *)
@@ -650,7 +708,7 @@ Proof.
   intros Hu. unfold classes_of.
   set (v := viol_steps defs dm st ss (observed (run_steps (build_rooms defs) dm st ss))).
   assert (Hk : forallb (fun k => Z.ltb 0 k) v = true).
-  { apply forallb_forall. intros k Hin. destruct (model_violations_known defs dm ss st k Hu Hin) as [H|[H|[H|[H|H]]]]; subst k; reflexivity. }
+  { apply forallb_forall. intros k Hin. destruct (model_violations_known defs dm ss st k Hu Hin) as [H|[H|H]]; subst k; reflexivity. }
   rewrite Hk. apply dedupz_nil.
 Qed.
 
@@ -668,7 +726,7 @@ Definition edge_w (tag src : N) (ent : entity) (dest : N) (cdate : Z) (author : 
   {| e_tag := tag; e_src := src; e_ent := Some ent; e_label := 1%N; e_dest := dest; e_cdate := cdate; e_author := author; e_sig_ok := true |}.
 Definition st_w (ns : list rnode) (es : list redge) : store := {| s_nodes := ns; s_edges := es; s_ndels := []; s_edels := [] |}.
 
-(* K1: key 2 may write E1 rows in room 2 only; it attaches a reference to a row of room 1 *)
+(* (repaired by a9c9d9e) key 2 may write E1 rows in room 2 only; it attaches a reference to a row of room 1 *)
 Definition w_K1 : c02case :=
   CIngest [(1%N, member_w 1 1 0 true true); (2%N, member_w 1 2 1 true false)] dm_w
     (st_w [node_w 1 100 1 1 good_w 20 1; node_w 2 101 1 2 good_w 20 1] [])
@@ -679,7 +737,7 @@ Definition w_K1b : c02case :=
     (st_w [node_w 1 100 1 1 good_w 20 1; node_w 2 101 1 2 good_w 20 1] [edge_w 3 100 1 101 20 1])
     [SEDels [{| ed_tag := 4%N; ed_room := 2%N; ed_src := 100%N; ed_ent := Some 1%N; ed_label := 1%N; ed_dest := 101%N;
                 ed_cdate := 20; ed_date := 30; ed_author := 2%N; ed_sig_ok := true |}]].
-(* K2: key 2 has rights on E2 only; its tombstone names E2 for the E1 row of key 1 *)
+(* (repaired by 8ef09c7) key 2 has rights on E2 only; its tombstone names E2 for the E1 row of key 1 *)
 Definition w_K2 : c02case :=
   CIngest [(1%N, member_w 1 1 1 true true ++ member_w 2 2 2 true true)] dm_w
     (st_w [node_w 1 100 1 1 good_w 20 1] [])
@@ -695,7 +753,7 @@ Definition w_K4 : c02case :=
   CIngest [(1%N, member_w 1 1 1 true true ++ member_w 2 2 1 true false)] dm_w
     (st_w [node_w 1 100 1 1 good_w 20 1; node_w 2 101 1 2 good_w 20 1] [edge_w 3 100 1 101 20 1])
     [SEdges 1%N [edge_w 4 100 1 101 30 2]].
-(* K5: a row without JSON content although `name` is required *)
+(* (repaired by 95fc165) a row without JSON content although `name` is required *)
 Definition w_K5 : c02case :=
   CIngest [(1%N, member_w 1 1 1 true false)] dm_w (st_w [] []) [SNodes 1%N [node_w 1 100 1 1 None 20 1]].
 (* an honest exchange: tombstone, new version, new row, reference: all stored, no violation *)
@@ -711,14 +769,23 @@ Definition w_ok : c02case :=
      (* refused: key 2 has no all-rows right for the row of key 1; key 3 is no member *)
      SNodes 1%N [node_w 9 102 1 2 good_w 28 2; node_w 10 103 1 1 good_w 28 3]].
 
+(* the classes that are still open *)
 Example witnesses :
-  violations w_K1 (run_C02 w_K1) = [1%Z] /\ violations w_K1b (run_C02 w_K1b) = [1%Z] /\
-  violations w_K2 (run_C02 w_K2) = [2%Z] /\ violations w_K3 (run_C02 w_K3) = [3%Z] /\
-  violations w_K4 (run_C02 w_K4) = [4%Z] /\ violations w_K5 (run_C02 w_K5) = [5%Z].
+  violations w_K1b (run_C02 w_K1b) = [1%Z] /\ violations w_K3 (run_C02 w_K3) = [3%Z] /\
+  violations w_K4 (run_C02 w_K4) = [4%Z].
 Proof. repeat split; vm_compute; reflexivity. Qed.
 
 Example witness_classes :
-  known_C02 w_K1 = [1%Z] /\ known_C02 w_K2 = [2%Z] /\ known_C02 w_K3 = [3%Z] /\ known_C02 w_K4 = [4%Z] /\ known_C02 w_K5 = [5%Z].
+  known_C02 w_K1b = [1%Z] /\ known_C02 w_K3 = [3%Z] /\ known_C02 w_K4 = [4%Z].
+Proof. repeat split; vm_compute; reflexivity. Qed.
+
+(* the witnesses of the repaired classes are now refused and leave the tables as they were:
+   the reference on a row of another room (rejected id 100), the tombstone naming another entity
+   (ignored: the row stays, nothing is logged), the row without JSON content (rejected id 100) *)
+Example repaired_witnesses :
+  run_C02 w_K1 = [2; 1; 2; 0; 0; 0;  0; 1; 100;  2; 1; 2; 0; 0; 0]%Z /\ violations w_K1 (run_C02 w_K1) = [] /\
+  run_C02 w_K2 = [1; 1; 0; 0; 0;  0;  1; 1; 0; 0; 0]%Z /\ violations w_K2 (run_C02 w_K2) = [] /\
+  run_C02 w_K5 = [0; 0; 0; 0;  0; 1; 100;  0; 0; 0; 0]%Z /\ violations w_K5 (run_C02 w_K5) = [].
 Proof. repeat split; vm_compute; reflexivity. Qed.
 
 (* non-vacuity: the honest exchange is stored (tables: 3 rows, 1 reference, 2 tombstones at the end),
